@@ -13,6 +13,7 @@ import (
 	"fmt"
 	"os"
 	"runtime/debug"
+	"runtime/pprof"
 	"sort"
 	"strconv"
 	"strings"
@@ -98,6 +99,14 @@ func main() {
 			os.Exit(2)
 		}
 	}()
-	def.run(c)
+	if pf := os.Getenv("VERIF_CPUPROFILE"); pf != "" {
+		f, _ := os.Create(pf)
+		_ = pprof.StartCPUProfile(f)
+		def.run(c)
+		pprof.StopCPUProfile()
+		f.Close()
+	} else {
+		def.run(c)
+	}
 	os.Exit(c.finish())
 }
